@@ -387,7 +387,7 @@ fn doc_ticks(msgs: &[Msg]) -> Vec<i64> {
     out
 }
 
-const HUGE_CID: i32 = 1 << 20;
+const HUGE_CID: i32 = 1 << 17;
 
 /// The property itself, evaluated on one reading of the implementation.
 fn oracle_structure(stream: &[u8], has_ex: bool, out: &Out, o: &mut Oracle, ctx: &str) {
